@@ -17,7 +17,7 @@ func g12IndexSites(repo string, w *Out) error {
 		funcs []string // empty = every function of the file
 	}{
 		{"internal/martian/proxy_conn.go", nil},
-		{"internal/martian/proxy_connect.go", []string{"OnProxyConnectResponse", "maybeConnectErrorResponse", "Proxy.connectHTTP", "Proxy.Connect", "newConnectResponse", "writeConnectOKResponse"}},
+		{"internal/martian/proxy_connect.go", []string{"OnProxyConnectResponse", "?onProxyConnectResponse", "?readAllWithin", "maybeConnectErrorResponse", "Proxy.connectHTTP", "Proxy.Connect", "newConnectResponse", "writeConnectOKResponse"}},
 		{"internal/martian/proxy.go", []string{"Proxy.handleLoop", "Proxy.errorResponse", "Proxy.roundTrip", "upgradeType", "Proxy.modifyRequest", "Proxy.modifyResponse", "Proxy.shouldMITM"}},
 		{"internal/martian/proxy_trace.go", nil},
 		{"internal/martian/errors.go", nil},
@@ -35,7 +35,12 @@ func g12IndexSites(repo string, w *Out) error {
 			return err
 		}
 		want := map[string]bool{}
+		optional := map[string]bool{}
 		for _, n := range sc.funcs {
+			if strings.HasPrefix(n, "?") { // present only in some shapes of the source
+				n = n[1:]
+				optional[n] = true
+			}
 			want[n] = true
 		}
 		found := map[string]bool{}
@@ -101,7 +106,7 @@ func g12IndexSites(repo string, w *Out) error {
 			})
 		}
 		for n := range want {
-			if !found[n] {
+			if !found[n] && !optional[n] {
 				return fmt.Errorf("%s: func %s not found (index-site scan)", sc.file, n)
 			}
 		}
